@@ -90,6 +90,7 @@ package moq
 //@   ensures{C20} one-mock-per-argument: forallEv(i, evIs(i, "call:template.Template.Execute") ==> len(evArg(i, 2).Mocks) == len(namePairs))
 //@   ensures{C10} same-package-unqualified: forallEv(i, evIs(i, "call:template.Template.Execute") && old(m.registry.srcPkgName) == evArg(i, 2).PkgName ==> evArg(i, 2).SrcPkgQualifier == "" && forallEv(j, !(evIs(j, "call:registry.Registry.AddImport") && evArg(j, 1) == old(m.registry.srcPkgTypes) && isSrcImport(j))))
 //@   ensures{C10} other-package-skip-ensure: forallEv(i, evIs(i, "call:template.Template.Execute") && old(m.registry.srcPkgName) != evArg(i, 2).PkgName && old(m.cfg.SkipEnsure) ==> evArg(i, 2).SrcPkgQualifier == old(m.registry.srcPkgName) + ".")
+//@   ensures{C01,C10,C11,C16} skip-ensure-registers-no-source-import: forallEv(i, evIs(i, "call:template.Template.Execute") && old(m.registry.srcPkgName) != evArg(i, 2).PkgName && old(m.cfg.SkipEnsure) ==> forallEv(j, evIs(j, "call:registry.Registry.AddImport") ==> fresh(evArg(j, 1))))
 //@   ensures{C10} other-package-imports-source: forallEv(i, evIs(i, "call:template.Template.Execute") && old(m.registry.srcPkgName) != evArg(i, 2).PkgName && !old(m.cfg.SkipEnsure) ==> existsEv(j, q, j < q && q < i && evIs(j, "call:registry.Registry.AddImport") && evArg(j, 1) == old(m.registry.srcPkgTypes) && evIs(q, "call:registry.Package.Qualifier") && evArg(q, 0) == evRes(j) && evArg(i, 2).SrcPkgQualifier == evRes(q) + "."))
 //@   ensures{C11} imports-rendered-are-registry-imports: forallEv(i, evIs(i, "call:template.Template.Execute") ==> existsEv(j, j < i && evIs(j, "call:registry.Registry.Imports") && evArg(i, 2).Imports == evRes(j) && forallEv(q, q > j && q < i ==> !evIs(q, "call:registry.Registry.AddImport"))))
 //@   ensures{C11} sync-iff-some-method: forallEv(i, evIs(i, "call:template.Data.MocksSomeMethod") ==> (evRes(i) <==> existsEv(j, j > i && evIs(j, "go/types.NewPackage") && evArg(j, 0) == "sync" && evArg(j, 1) == "sync" && existsEv(q, q > j && evIs(q, "call:registry.Registry.AddImport") && evArg(q, 1) == evRes(j)))))
